@@ -140,6 +140,8 @@ CHECKS = {
         "jobs": [
             {"run": "^TestC07BackendModel$", "n": {"quick": 20000, "thorough": 150000}},
             {"run": "^TestC07AbortedWalk$", "n": {"quick": 4000, "thorough": 40000}},
+            # entries do not depend on the exported wrapper staying reachable (finalizer / garbage collector)
+            {"run": "^TestC07WrapperCollected$", "n": {"quick": 60, "thorough": 600}},
             {"fuzz": "^FuzzC07BackendModel$", "fuzztime": {"thorough": "60s"}, "tiers": ("thorough",), "timeout": {"quick": 300, "thorough": 600}},
         ],
     },
@@ -247,6 +249,8 @@ CHECKS = {
         "assumptions": ["values come from a pool registered once per process with cache.GobRegister"],
         "jobs": [
             {"run": "^TestC13DumpRestore$", "n": {"quick": 5000, "thorough": 50000}},
+            # a Dump that is the last use of its cache, while the garbage collector runs
+            {"run": "^TestC07WrapperCollected$", "name": "C07WrapperCollected-for-C13", "n": {"quick": 60, "thorough": 600}},
             {"fuzz": "^FuzzC13DumpRestore$", "fuzztime": {"thorough": "60s"}, "tiers": ("thorough",), "timeout": {"quick": 300, "thorough": 600}},
         ],
     },
